@@ -103,6 +103,8 @@ def self_contained(m, ir, cross="none"):
                         return False
             if len(x.a["contents"]) > x.a["size"]:
                 return False
+            if x.a["address"] is not None and not (0 <= x.a["address"] < 2**64):
+                return False  # not representable in the schema
     return True
 
 
